@@ -1,7 +1,699 @@
 package main
 
-// Replay of solver models against the real code (go test -overlay).
+// Replay of solver models against the real code: the model's inputs are turned into
+// an in-package Go test injected with `go test -overlay` (nothing is written to the
+// repository); the observed outputs are then checked against the failed contract
+// clause by a second, fully concrete SMT query.
 
-func replayModel(prog *Prog, o *Oblig, r *SolveResult, path string) (confirmed bool, detail map[string]interface{}) {
-	return false, map[string]interface{}{"status": "not-attempted"}
+import (
+	"encoding/json"
+	"fmt"
+	"go/types"
+	"os"
+	"os/exec"
+	"path/filepath"
+	"sort"
+	"strings"
+
+	"golang.org/x/tools/go/ssa"
+)
+
+const replayMaxElems = 48
+
+// addInputs registers model variables for a value of type t held in term (entry state).
+func (vc *FnVC) addInputs(path, term string, t types.Type, depth int) {
+	if depth > 3 {
+		return
+	}
+	entry := func(comp, sort string) string { return vc.entryComp(comp, sort) }
+	add := func(name, tm, sort string) { vc.inputs = append(vc.inputs, ModelVar{name, tm, sort}) }
+	if isUint256(t) {
+		add(path, term, "Int")
+		return
+	}
+	switch u := t.Underlying().(type) {
+	case *types.Basic:
+		add(path, term, vc.sortOf(t))
+	case *types.Pointer:
+		add(path, term, "Int")
+		el := u.Elem()
+		if isBigInt(el) || isUint256(el) {
+			add("*"+path, vc.loadObject(term, el, entry), "Int")
+			return
+		}
+		if structOf(el) != nil {
+			vc.addInputs("*"+path, vc.loadObject(term, el, entry), el, depth+1)
+		}
+	case *types.Struct:
+		for i := 0; i < u.NumFields(); i++ {
+			vc.addInputs(path+"."+u.Field(i).Name(), fmt.Sprintf("(%s %s)", vc.accName(t, i), term), u.Field(i).Type(), depth+1)
+		}
+	case *types.Slice:
+		add(path+".len", fmt.Sprintf("(s.len %s)", term), "Int")
+		add(path+".cap", fmt.Sprintf("(s.cap %s)", term), "Int")
+		add(path+".off", fmt.Sprintf("(s.off %s)", term), "Int")
+		add(path+".arr", fmt.Sprintf("(s.arr %s)", term), "Int")
+		if !isObjectType(u.Elem()) {
+			if _, ok := u.Elem().Underlying().(*types.Basic); ok {
+				c, s := vc.elemComp(u.Elem())
+				for i := 0; i < replayMaxElems; i++ {
+					add(fmt.Sprintf("%s[%d]", path, i), fmt.Sprintf("(select (select %s (s.arr %s)) (+ (s.off %s) %d))", entry(c, s), term, term, i), vc.sortOf(u.Elem()))
+				}
+			}
+		}
+	case *types.Interface, *types.Map, *types.Signature, *types.Chan:
+		add(path, term, "Int")
+	case *types.Array:
+		if _, ok := u.Elem().Underlying().(*types.Basic); ok && u.Len() <= replayMaxElems {
+			for i := 0; i < int(u.Len()); i++ {
+				add(fmt.Sprintf("%s[%d]", path, i), fmt.Sprintf("(select %s %d)", term, i), vc.sortOf(u.Elem()))
+			}
+		}
+	}
 }
+
+type replayGen struct {
+	vc      *FnVC
+	model   map[string]string
+	pkg     *types.Package
+	imports map[string]string // path -> name
+	errs    []string
+	setup   []string
+}
+
+func (g *replayGen) qual(p *types.Package) string {
+	if p == g.pkg {
+		return ""
+	}
+	g.imports[p.Path()] = p.Name()
+	return p.Name()
+}
+
+func (g *replayGen) typeStr(t types.Type) string {
+	return types.TypeString(t, g.qual)
+}
+
+func (g *replayGen) mv(path string) (string, bool) {
+	v, ok := g.model[path]
+	return v, ok
+}
+
+// goValue builds a Go expression of type t from the model at path.
+func (g *replayGen) goValue(path string, t types.Type) string {
+	if isUint256(t) {
+		v, _ := g.mv(path)
+		if v == "" {
+			v = "0"
+		}
+		g.imports["github.com/holiman/uint256"] = "uint256"
+		return fmt.Sprintf("*uint256.MustFromDecimal(%q)", v)
+	}
+	switch u := t.Underlying().(type) {
+	case *types.Basic:
+		v, ok := g.mv(path)
+		if !ok {
+			v = "0"
+			if u.Info()&types.IsBoolean != 0 {
+				v = "false"
+			}
+		}
+		switch {
+		case u.Info()&types.IsBoolean != 0:
+			return fmt.Sprintf("%s(%s)", g.typeStr(t), v)
+		case u.Info()&types.IsInteger != 0:
+			return fmt.Sprintf("%s(%s)", g.typeStr(t), v)
+		case u.Info()&types.IsString != 0:
+			return `""`
+		}
+		g.errs = append(g.errs, "unsupported basic type "+t.String())
+		return "0"
+	case *types.Struct:
+		if n, ok := t.(*types.Named); ok && n.Obj().Pkg() != g.pkg && !n.Obj().Exported() {
+			g.errs = append(g.errs, "unexported foreign type "+t.String())
+		}
+		var parts []string
+		for i := 0; i < u.NumFields(); i++ {
+			f := u.Field(i)
+			if !f.Exported() && f.Pkg() != g.pkg {
+				continue
+			}
+			switch f.Type().Underlying().(type) {
+			case *types.Basic, *types.Struct, *types.Slice:
+				parts = append(parts, fmt.Sprintf("%s: %s", f.Name(), g.goValue(path+"."+f.Name(), f.Type())))
+			case *types.Array:
+				if isUint256(f.Type()) {
+					parts = append(parts, fmt.Sprintf("%s: %s", f.Name(), g.goValue(path+"."+f.Name(), f.Type())))
+				}
+			}
+		}
+		return fmt.Sprintf("%s{%s}", g.typeStr(t), strings.Join(parts, ", "))
+	case *types.Pointer:
+		el := u.Elem()
+		if v, ok := g.mv(path); ok && v == "0" {
+			return fmt.Sprintf("(%s)(nil)", g.typeStr(t))
+		}
+		if isBigInt(el) {
+			v, _ := g.mv("*" + path)
+			if v == "" {
+				v = "0"
+			}
+			g.imports["math/big"] = "big"
+			return fmt.Sprintf("func() *big.Int { x, _ := new(big.Int).SetString(%q, 10); return x }()", v)
+		}
+		if isUint256(el) {
+			v, _ := g.mv("*" + path)
+			if v == "" {
+				v = "0"
+			}
+			g.imports["github.com/holiman/uint256"] = "uint256"
+			return fmt.Sprintf("uint256.MustFromDecimal(%q)", v)
+		}
+		if structOf(el) != nil {
+			return "&" + g.goValue("*"+path, el)
+		}
+		g.errs = append(g.errs, "unsupported pointer type "+t.String())
+		return "nil"
+	case *types.Slice:
+		ln, _ := g.mv(path + ".len")
+		cp, _ := g.mv(path + ".cap")
+		off, _ := g.mv(path + ".off")
+		arr, _ := g.mv(path + ".arr")
+		var n, c, o int
+		fmt.Sscanf(ln, "%d", &n)
+		fmt.Sscanf(cp, "%d", &c)
+		fmt.Sscanf(off, "%d", &o)
+		if arr == "0" && n == 0 {
+			return "nil"
+		}
+		if n > replayMaxElems || c > 1<<16 {
+			g.errs = append(g.errs, fmt.Sprintf("slice %s too large to replay (len %d cap %d)", path, n, c))
+			return "nil"
+		}
+		if _, ok := u.Elem().Underlying().(*types.Basic); !ok {
+			g.errs = append(g.errs, "unsupported slice element type "+t.String())
+			return "nil"
+		}
+		var elems []string
+		for i := 0; i < n; i++ {
+			elems = append(elems, g.goValue(fmt.Sprintf("%s[%d]", path, i), u.Elem()))
+		}
+		// backing array of capacity c (zero beyond the modelled prefix)
+		name := fmt.Sprintf("bk%d", len(g.setup))
+		g.setup = append(g.setup, fmt.Sprintf("%s := make(%s, %d, %d)", name, g.typeStr(t), n, max(c, n)))
+		g.setup = append(g.setup, fmt.Sprintf("copy(%s, %s{%s})", name, g.typeStr(t), strings.Join(elems, ", ")))
+		return name
+	case *types.Interface:
+		v, _ := g.mv(path)
+		if v == "0" || v == "" {
+			return "nil"
+		}
+		if types.Identical(t, types.Universe.Lookup("error").Type()) {
+			for gname, goName := range g.vc.globalGoNames {
+				if mvv, ok := g.model["global:"+gname]; ok && mvv == v {
+					if goName.pkg != g.pkg {
+						g.imports[goName.pkg.Path()] = goName.pkg.Name()
+						return goName.pkg.Name() + "." + goName.name
+					}
+					return goName.name
+				}
+			}
+			g.imports["errors"] = "errors"
+			return `errors.New("verif-replay-error")`
+		}
+		g.errs = append(g.errs, "unsupported interface type "+t.String())
+		return "nil"
+	case *types.Array:
+		if _, ok := u.Elem().Underlying().(*types.Basic); ok && u.Len() <= replayMaxElems {
+			var elems []string
+			for i := 0; i < int(u.Len()); i++ {
+				elems = append(elems, g.goValue(fmt.Sprintf("%s[%d]", path, i), u.Elem()))
+			}
+			return fmt.Sprintf("%s{%s}", g.typeStr(t), strings.Join(elems, ", "))
+		}
+	}
+	g.errs = append(g.errs, "unsupported type "+t.String())
+	return "nil"
+}
+
+// dumpStmts emits Go statements that record the value at Go expression `expr` of type t
+// under key path into map out.
+func (g *replayGen) dumpStmts(path, expr string, t types.Type, depth int) []string {
+	if depth > 3 {
+		return nil
+	}
+	if isUint256(t) {
+		return []string{fmt.Sprintf("{ v := %s; out[%q] = v.Dec() }", expr, path)}
+	}
+	switch u := t.Underlying().(type) {
+	case *types.Basic:
+		if u.Info()&(types.IsInteger|types.IsBoolean) != 0 {
+			return []string{fmt.Sprintf("out[%q] = fmt.Sprint(%s)", path, expr)}
+		}
+	case *types.Struct:
+		var st []string
+		for i := 0; i < u.NumFields(); i++ {
+			f := u.Field(i)
+			if !f.Exported() && f.Pkg() != g.pkg {
+				continue
+			}
+			st = append(st, g.dumpStmts(path+"."+f.Name(), expr+"."+f.Name(), f.Type(), depth+1)...)
+		}
+		return st
+	case *types.Pointer:
+		el := u.Elem()
+		if isBigInt(el) {
+			return []string{fmt.Sprintf("if %s != nil { out[%q] = %s.String() } else { out[%q] = \"nil\" }", expr, "*"+path, expr, path)}
+		}
+		if isUint256(el) {
+			return []string{fmt.Sprintf("if %s != nil { out[%q] = %s.Dec() } else { out[%q] = \"nil\" }", expr, "*"+path, expr, path)}
+		}
+		if structOf(el) != nil {
+			inner := g.dumpStmts("*"+path, "(*"+expr+")", el, depth+1)
+			return []string{fmt.Sprintf("if %s != nil { %s } else { out[%q] = \"nil\" }", expr, strings.Join(inner, "; "), path)}
+		}
+	case *types.Slice:
+		if _, ok := u.Elem().Underlying().(*types.Basic); ok {
+			return []string{
+				fmt.Sprintf("out[%q] = fmt.Sprint(len(%s))", path+".len", expr),
+				fmt.Sprintf("out[%q] = fmt.Sprint(cap(%s))", path+".cap", expr),
+				fmt.Sprintf("for i := 0; i < len(%s) && i < %d; i++ { out[fmt.Sprintf(\"%s[%%d]\", i)] = fmt.Sprint(%s[i]) }", expr, replayMaxElems, path, expr),
+			}
+		}
+	case *types.Interface:
+		if types.Identical(t, types.Universe.Lookup("error").Type()) {
+			st := []string{fmt.Sprintf("if %s == nil { out[%q] = \"nil\" } else { out[%q] = \"err:\" + %s.Error() }", expr, path, path, expr)}
+			for gname, goName := range g.vc.globalGoNames {
+				q := goName.name
+				if goName.pkg != g.pkg {
+					g.imports[goName.pkg.Path()] = goName.pkg.Name()
+					q = goName.pkg.Name() + "." + goName.name
+				}
+				st = append(st, fmt.Sprintf("if %s != nil && %s == %s { out[%q] = \"global:%s\" }", expr, expr, q, path, gname))
+			}
+			return st
+		}
+	}
+	return nil
+}
+
+type goName struct {
+	pkg  *types.Package
+	name string
+}
+
+// replayModel runs the real function on the model's inputs and decides whether the
+// failed obligation is confirmed.
+func replayModel(prog *Prog, o *Oblig, r *SolveResult, path string) (confirmed bool, detail map[string]interface{}) {
+	detail = map[string]interface{}{}
+	vc := o.vc
+	fn := vc.fn
+	if fn == nil || fn.Pkg == nil {
+		detail["status"] = "no function"
+		return false, detail
+	}
+	g := &replayGen{vc: vc, model: r.Model, pkg: fn.Pkg.Pkg, imports: map[string]string{"testing": "testing", "fmt": "fmt", "encoding/json": "json"}}
+	var args []string
+	var decls []string
+	var post []string
+	for i, p := range fn.Params {
+		name := fmt.Sprintf("in%d", i)
+		val := g.goValue(p.Name(), p.Type())
+		decls = append(decls, fmt.Sprintf("%s := %s", name, val))
+		args = append(args, name)
+		post = append(post, g.dumpStmts(p.Name(), name, p.Type(), 0)...)
+	}
+	if len(g.errs) > 0 {
+		detail["status"] = "inputs not constructible: " + strings.Join(g.errs, "; ")
+		return false, detail
+	}
+	// call expression
+	var call string
+	var callArgs []string
+	if fn.Signature.Recv() != nil {
+		callArgs = args[1:]
+		call = fmt.Sprintf("%s.%s(%s)", args[0], fn.Name(), strings.Join(callArgs, ", "))
+	} else {
+		call = fmt.Sprintf("%s(%s)", fn.Name(), strings.Join(args, ", "))
+	}
+	res := fn.Signature.Results()
+	var lhs []string
+	for i := 0; i < res.Len(); i++ {
+		lhs = append(lhs, fmt.Sprintf("r%d", i))
+		post = append(post, g.dumpStmts(fmt.Sprintf("result%d", i), fmt.Sprintf("r%d", i), res.At(i).Type(), 0)...)
+	}
+	assign := call
+	if len(lhs) > 0 {
+		assign = strings.Join(lhs, ", ") + " := " + call
+	}
+	var sb strings.Builder
+	sb.WriteString("package " + fn.Pkg.Pkg.Name() + "\n\nimport (\n")
+	var imps []string
+	for p := range g.imports {
+		imps = append(imps, p)
+	}
+	sort.Strings(imps)
+	for _, p := range imps {
+		sb.WriteString(fmt.Sprintf("\t%s %q\n", g.imports[p], p))
+	}
+	sb.WriteString(")\n\nfunc TestVerifReplay(t *testing.T) {\n\tout := map[string]string{}\n")
+	sb.WriteString("\tdefer func() {\n\t\tif r := recover(); r != nil { out[\"panic\"] = fmt.Sprint(r) }\n\t\tb, _ := json.Marshal(out)\n\t\tfmt.Printf(\"VERIF-REPLAY-OUT %s\\n\", b)\n\t}()\n")
+	for _, s := range g.setup {
+		sb.WriteString("\t" + s + "\n")
+	}
+	for _, d := range decls {
+		sb.WriteString("\t" + d + "\n")
+	}
+	sb.WriteString("\t" + assign + "\n")
+	for _, s := range post {
+		sb.WriteString("\t" + s + "\n")
+	}
+	for i := range lhs {
+		sb.WriteString(fmt.Sprintf("\t_ = r%d\n", i))
+	}
+	sb.WriteString("}\n")
+	src := sb.String()
+	detail["test_source"] = src
+
+	pkgDir := strings.TrimPrefix(fn.Pkg.Pkg.Path(), modPrefix)
+	tmp, err := os.MkdirTemp("/var/tmp", "govc-replay-")
+	if err != nil {
+		detail["status"] = err.Error()
+		return false, detail
+	}
+	defer os.RemoveAll(tmp)
+	testFile := filepath.Join(tmp, "zz_verif_replay_test.go")
+	os.WriteFile(testFile, []byte(src), 0o644)
+	ov := map[string]map[string]string{"Replace": {filepath.Join(prog.repoDir, pkgDir, "zz_verif_replay_test.go"): testFile}}
+	// contract files that only exist in the mirror (lemma functions live there)
+	for d, srcKind := range prog.contractSource {
+		if strings.HasPrefix(srcKind, "mirror") {
+			ov["Replace"][filepath.Join(prog.repoDir, d, "zz_verif_contracts.go")] = filepath.Join(verifDir(), "contracts", d, "zz_verif_contracts.go")
+		}
+	}
+	for f, data := range prog.extraOverlay {
+		fn := filepath.Join(tmp, sanitize(f))
+		os.WriteFile(fn, data, 0o644)
+		ov["Replace"][f] = fn
+	}
+	ovData, _ := json.Marshal(ov)
+	ovFile := filepath.Join(tmp, "overlay.json")
+	os.WriteFile(ovFile, ovData, 0o644)
+	cmdline := fmt.Sprintf("ulimit -v 8000000; cd %s && go test -overlay %s -tags verif -vet=off -v -count=1 -timeout 60s -run '^TestVerifReplay$' ./%s", prog.repoDir, ovFile, pkgDir)
+	cmd := exec.Command("bash", "-c", cmdline)
+	cmd.Env = append(os.Environ(), "GOFLAGS=-mod=mod", "GOPROXY=off")
+	outb, _ := cmd.CombinedOutput()
+	outs := string(outb)
+	detail["replay_cmd"] = cmdline
+	k := strings.Index(outs, "VERIF-REPLAY-OUT ")
+	if k < 0 {
+		detail["status"] = "replay did not run: " + truncate(outs, 1500)
+		return false, detail
+	}
+	line := outs[k+len("VERIF-REPLAY-OUT "):]
+	if e := strings.Index(line, "\n"); e >= 0 {
+		line = line[:e]
+	}
+	observed := map[string]string{}
+	json.Unmarshal([]byte(line), &observed)
+	detail["observed"] = observed
+	detail["inputs"] = r.Model
+
+	// decide
+	if pmsg, ok := observed["panic"]; ok {
+		detail["status"] = "real code panicked on the model input: " + pmsg
+		// a panic confirms bounds/unreachable/nowrap/post obligations alike: the function does
+		// not return normally on an input satisfying its preconditions.
+		return true, detail
+	}
+	switch o.Kind {
+	case "post":
+		ok, why := evalClauseConcrete(prog, o, r.Model, observed)
+		detail["clause_eval"] = why
+		if ok {
+			detail["status"] = "confirmed: ensures clause is false on the observed outputs of the real function"
+			return true, detail
+		}
+		detail["status"] = "not confirmed: real function satisfies the clause on this input (model exploited an abstraction)"
+		return false, detail
+	default:
+		// try all ensures clauses of the function: a wrap/frame violation that matters shows up there
+		for i := range vc.fc.Ensures {
+			oo := *o
+			oo.Kind = "post"
+			oo.clauseIdx = i + 1
+			ok, why := evalClauseConcrete(prog, &oo, r.Model, observed)
+			if ok {
+				detail["clause_eval"] = why
+				detail["status"] = fmt.Sprintf("confirmed: on the model input of the failed %s obligation the real function violates ensures #%d", o.Kind, i+1)
+				return true, detail
+			}
+		}
+		detail["status"] = "real function ran on the model input without panic and without violating an ensures clause; the failed " + o.Kind + " obligation itself is not observable from outside"
+		return false, detail
+	}
+}
+
+// evalClauseConcrete re-elaborates the clause over a fresh VC context in which inputs and
+// observed outputs are fixed to constants; "sat" of (not clause) confirms the violation.
+func evalClauseConcrete(prog *Prog, o *Oblig, model, observed map[string]string) (bool, string) {
+	old := o.vc
+	vc := newFnVC(prog, old.fn, old.fc)
+	vc.setupEntry()
+	vc.collectInputs()
+	// bind inputs
+	for _, in := range vc.inputs {
+		if v, ok := model[in.Name]; ok && !strings.HasPrefix(in.Sort, "(Array") {
+			vc.fact(fmt.Sprintf("(= %s %s)", in.Term, smtLit(v, in.Sort)))
+		}
+	}
+	// global sentinel values take their model values
+	for gname, gn := range old.globalGoNames {
+		vc.globalGoNames[gname] = gn
+		if obj, _ := gn.pkg.Scope().Lookup(gn.name).(*types.Var); obj != nil {
+			t := vc.globalTerm(obj)
+			if v, ok := model["global:"+gname]; ok {
+				vc.fact(fmt.Sprintf("(= %s %s)", t.S, smtLit(v, t.Sort)))
+			}
+		}
+	}
+	env := vc.entryEnv()
+	// post heap: pointer params' objects take the observed values
+	postHeap := map[string]string{}
+	saved := vc.curHeap
+	vc.curHeap = postHeap
+	for _, p := range old.fn.Params {
+		pt, ok := p.Type().Underlying().(*types.Pointer)
+		if !ok {
+			continue
+		}
+		el := pt.Elem()
+		ref := vc.vals[p].S
+		if st := structOf(el); st != nil {
+			vc.bindObserved(ref, el, "*"+p.Name(), observed)
+		} else if isBigInt(el) || isUint256(el) {
+			if v, ok := observed["*"+p.Name()]; ok {
+				vc.storeObject(ref, el, smtLit(v, "Int"))
+			}
+		}
+	}
+	for _, p := range old.fn.Params {
+		if st, ok := p.Type().Underlying().(*types.Slice); ok && !isObjectType(st.Elem()) {
+			t := vc.vals[p]
+			c, s := vc.elemComp(st.Elem())
+			h := vc.heapGet(c, s)
+			arr := fmt.Sprintf("(select %s (s.arr %s))", h, t.S)
+			for i := 0; i < replayMaxElems; i++ {
+				if v, ok := observed[fmt.Sprintf("%s[%d]", p.Name(), i)]; ok {
+					arr = fmt.Sprintf("(store %s (+ (s.off %s) %d) %s)", arr, t.S, i, smtLit(v, vc.sortOf(st.Elem())))
+				}
+			}
+			vc.heapSet(c, s, fmt.Sprintf("(store %s (s.arr %s) %s)", h, t.S, arr))
+		}
+	}
+	env.heap = func(comp, sort string) string { return vc.heapGet(comp, sort) }
+	_ = saved
+	// results
+	res := old.fn.Signature.Results()
+	for i := 0; i < res.Len(); i++ {
+		t, ok := vc.observedTerm(fmt.Sprintf("result%d", i), res.At(i).Type(), observed, model)
+		if !ok {
+			return false, "result not observable: " + res.At(i).Type().String()
+		}
+		if i < len(old.resultNames) && old.resultNames[i] != "" && old.resultNames[i] != "_" {
+			env.vars[old.resultNames[i]] = t
+		}
+		env.vars[fmt.Sprintf("result%d", i)] = t
+		if res.Len() == 1 {
+			env.vars["result"] = t
+		}
+	}
+	idx := o.clauseIdx
+	if idx == 0 {
+		// parse from name "... : post#N"
+		if k := strings.LastIndex(o.Name, "post#"); k >= 0 {
+			fmt.Sscanf(o.Name[k+5:], "%d", &idx)
+		}
+	}
+	if idx < 1 || idx > len(old.fc.Ensures) {
+		return false, "cannot identify clause"
+	}
+	cl := old.fc.Ensures[idx-1]
+	s, err := env.ElabBool(cl.Expr)
+	if err != nil {
+		return false, "elaboration: " + err.Error()
+	}
+	// requires must hold on the input as well (sanity: the model satisfies them)
+	probe := &Oblig{Name: "replay-eval", Goal: s, NFacts: len(vc.facts), vc: vc, Expect: "unsat"}
+	sv, err := NewSolver(20, false)
+	if err != nil {
+		return false, err.Error()
+	}
+	defer sv.Close()
+	r := sv.Solve(probe)
+	switch r.Status {
+	case "sat":
+		return true, "clause '" + cl.Text + "' evaluates to false on (model inputs, observed outputs)"
+	case "unsat":
+		return false, "clause '" + cl.Text + "' holds on (model inputs, observed outputs)"
+	}
+	return false, "clause evaluation undecided: " + r.Status
+}
+
+func smtLit(v, sort string) string {
+	v = strings.TrimSpace(v)
+	if sort == "Bool" {
+		return v
+	}
+	if strings.HasPrefix(v, "-") {
+		return "(- " + v[1:] + ")"
+	}
+	return v
+}
+
+func (vc *FnVC) bindObserved(ref string, t types.Type, path string, observed map[string]string) {
+	st := structOf(t)
+	if st == nil {
+		return
+	}
+	for i := 0; i < st.NumFields(); i++ {
+		f := st.Field(i)
+		ft := f.Type()
+		p := path + "." + f.Name()
+		if isUint256(ft) {
+			if v, ok := observed[p]; ok {
+				vc.storeObject(vc.fldRef(t, i, ref), ft, smtLit(v, "Int"))
+			}
+			continue
+		}
+		if isObjectType(ft) {
+			vc.bindObserved(vc.fldRef(t, i, ref), ft, p, observed)
+			continue
+		}
+		if v, ok := observed[p]; ok {
+			c, s := vc.fieldComp(t, i)
+			vc.heapSet(c, s, fmt.Sprintf("(store %s %s %s)", vc.heapGet(c, s), ref, smtLit(v, vc.sortOf(ft))))
+		}
+	}
+}
+
+// observedTerm builds a concrete SMT term for an observed result.
+func (vc *FnVC) observedTerm(path string, t types.Type, observed, model map[string]string) (Term, bool) {
+	srt := vc.sortOf(t)
+	if isUint256(t) {
+		v, ok := observed[path]
+		return Term{S: smtLit(v, "Int"), Sort: "Int", T: t}, ok
+	}
+	switch u := t.Underlying().(type) {
+	case *types.Basic:
+		v, ok := observed[path]
+		if !ok {
+			return Term{}, false
+		}
+		return Term{S: smtLit(v, srt), Sort: srt, T: t}, true
+	case *types.Struct:
+		var parts []string
+		for i := 0; i < u.NumFields(); i++ {
+			ft, ok := vc.observedTerm(path+"."+u.Field(i).Name(), u.Field(i).Type(), observed, model)
+			if !ok {
+				return Term{}, false
+			}
+			parts = append(parts, ft.S)
+		}
+		if len(parts) == 0 {
+			return Term{S: vc.ctorName(t), Sort: srt, T: t}, true
+		}
+		return Term{S: fmt.Sprintf("(%s %s)", vc.ctorName(t), strings.Join(parts, " ")), Sort: srt, T: t}, true
+	case *types.Interface:
+		v, ok := observed[path]
+		if !ok {
+			return Term{}, false
+		}
+		if v == "nil" {
+			return Term{S: "0", Sort: "Int", T: t}, true
+		}
+		if strings.HasPrefix(v, "global:") {
+			gname := strings.TrimPrefix(v, "global:")
+			if gn, ok := vc.globalByName(gname); ok {
+				return Term{S: gn, Sort: "Int", T: t}, true
+			}
+		}
+		f := vc.freshConst("obs", "Int")
+		vc.fact(fmt.Sprintf("(> %s 0)", f))
+		vc.pendingDistinct = append(vc.pendingDistinct, f)
+		return Term{S: f, Sort: "Int", T: t}, true
+	case *types.Slice:
+		ln, ok := observed[path+".len"]
+		if !ok {
+			return Term{}, false
+		}
+		cp := observed[path+".cap"]
+		arr := vc.newAllocRef("obsarr")
+		if _, isBasic := u.Elem().Underlying().(*types.Basic); isBasic {
+			c, s := vc.elemComp(u.Elem())
+			a := fmt.Sprintf("((as const (Array Int %s)) %s)", vc.sortOf(u.Elem()), vc.zeroValue(u.Elem()))
+			for i := 0; i < replayMaxElems; i++ {
+				if v, ok := observed[fmt.Sprintf("%s[%d]", path, i)]; ok {
+					a = fmt.Sprintf("(store %s %d %s)", a, i, smtLit(v, vc.sortOf(u.Elem())))
+				}
+			}
+			vc.heapSet(c, s, fmt.Sprintf("(store %s %s %s)", vc.heapGet(c, s), arr, a))
+		}
+		return Term{S: fmt.Sprintf("(mkSlice %s 0 %s %s)", arr, ln, cp), Sort: "Slice", T: t}, true
+	case *types.Pointer:
+		v, ok := observed[path]
+		if ok && v == "nil" {
+			return Term{S: "0", Sort: "Int", T: t}, true
+		}
+		el := u.Elem()
+		ref := vc.newAllocRef("obsptr")
+		if isBigInt(el) || isUint256(el) {
+			if v, ok := observed["*"+path]; ok {
+				vc.storeObject(ref, el, smtLit(v, "Int"))
+				return Term{S: ref, Sort: "Int", T: t}, true
+			}
+			return Term{}, false
+		}
+		if structOf(el) != nil {
+			vc.bindObserved(ref, el, "*"+path, observed)
+			return Term{S: ref, Sort: "Int", T: t}, true
+		}
+	}
+	return Term{}, false
+}
+
+func (vc *FnVC) globalByName(gname string) (string, bool) {
+	// make sure the global is declared in this context
+	if gn, ok := vc.globalGoNames[gname]; ok {
+		obj, _ := gn.pkg.Scope().Lookup(gn.name).(*types.Var)
+		if obj != nil {
+			return vc.globalTerm(obj).S, true
+		}
+	}
+	// declare by scanning known packages
+	for _, pk := range vc.prog.pkgs {
+		_ = pk
+	}
+	return "", false
+}
+
+var _ = ssa.Value(nil)
